@@ -7,6 +7,8 @@
 //!   table_rows  the same with `streaming_batch_size = 0` (row frames); `--rowmode`
 //!   errors      `render(Response::error(..))` of the three renderers + the HTTP status the
 //!               front end derives from those bytes
+//!   witness     fixed cases: the witnesses of the `_fails` theorems, replayed on the real code
+//!   sys         oracle only: DEFINE/STORE/FLUSH/QUERY through the real engine with each renderer
 //!
 //! The produced bytes are decoded by independent readers (a small JSON reader written here,
 //! arrow's own IPC `StreamReader`), printed as one canonical line and compared with the Lean
@@ -509,11 +511,36 @@ struct Case {
 
 const TYPES: &[&str] = &[
     "Integer", "Integer", "Float", "Float", "Boolean", "Timestamp", "String", "String", "String", "Number", "JSON",
-    "Object", "Array", "UInt64", "UInt", "Binary", "Null", "integer", "",
+    "Object", "Array", "UInt64", "UInt", "Binary", "Null", "integer", "", "Date", "Enum", "Unknown",
 ];
 const NAMES: &[&str] = &["k", "v", "ts", "name", "é✓", "a b", "status", "timestamp", "context_id", "x\"y", "payload.f", "type"];
 
+/// Integers whose conversion to f64 rounds: above 2^53, incl. exact ties and carries.
+fn gen_rounding_int(r: &mut Rng) -> i64 {
+    let k = 54 + r.below(9) as u32; // top bit 54..62
+    let sh = k - 52;
+    let q = (1u64 << 52) | (r.next() & ((1u64 << 52) - 1));
+    let q = match r.below(4) {
+        0 => q | 1,                 // odd mantissa
+        1 => q & !1,                // even mantissa
+        2 => (1u64 << 53) - 1,      // all ones: rounding up carries into the exponent
+        _ => q,
+    };
+    let low = match r.below(5) {
+        0 => 1u64 << (sh - 1),                  // exact tie
+        1 => (1u64 << (sh - 1)) + 1,            // just above the tie
+        2 => (1u64 << (sh - 1)) - 1,            // just below the tie
+        3 => 0,
+        _ => r.next() & ((1u64 << sh) - 1),
+    };
+    let mag = ((q as u128) << sh | low as u128).min(i64::MAX as u128) as i64;
+    if r.chance(1, 2) { mag } else { -mag }
+}
+
 fn gen_int(r: &mut Rng) -> i64 {
+    if r.chance(1, 12) {
+        return gen_rounding_int(r);
+    }
     match r.below(10) {
         0 => 0,
         1 => i64::MAX,
@@ -646,6 +673,7 @@ fn gen_case(r: &mut Rng, big: bool) -> Case {
         5 => 4,
         _ => 10,
     };
+    let ints_in_float = r.chance(1, 10);
     let id_range = 1 + r.below(12) as i64;
     let nb = if big { r.below(9) } else { r.below(6) } as usize;
     let mut batches = vec![];
@@ -669,6 +697,8 @@ fn gen_case(r: &mut Rng, big: bool) -> Case {
                         4 => ScalarValue::Timestamp(r.range(0, id_range)),
                         _ => ScalarValue::Int64(r.range(0, id_range * 3)),
                     }
+                } else if ints_in_float && b == Builder::Float64 && r.chance(2, 3) {
+                    ScalarValue::Int64(if r.chance(2, 3) { gen_rounding_int(r) } else { gen_int(r) })
                 } else if den != 0 && r.chance(1, den) {
                     gen_any(r)
                 } else {
@@ -1020,8 +1050,29 @@ fn run_table_case(s: &mut Stream, rt: &tokio::runtime::Runtime, i: u64, c: &Case
                 for (_, t) in &c.cols {
                     s.tally(&format!("col:{:?}", builder_of(t)));
                 }
-                let whole = ar.batches.iter().zip(c.batches.iter().filter(|b| !b.is_empty())).count();
-                let _ = whole;
+                // which Arrow encoder each emitted record batch went through (independent
+                // statement: a batch is encoded whole iff none of its rows was dropped)
+                {
+                    let exp = expected_rows(c);
+                    let mut it = exp.iter().peekable();
+                    for b in c.batches.iter().filter(|b| !b.is_empty()) {
+                        let mut kept = 0;
+                        for row in b {
+                            if it.peek().is_some_and(|e| std::ptr::eq(**e, row)) {
+                                it.next();
+                                kept += 1;
+                            }
+                        }
+                        if kept == b.len() {
+                            s.tally("arrow_batch:whole");
+                        } else if kept > 0 {
+                            s.tally("arrow_batch:indexed");
+                        }
+                    }
+                    if j.frames.iter().any(|f| matches!(f, Frame::Row(_))) {
+                        s.tally("row_frames");
+                    }
+                }
                 for b in &c.batches {
                     for row in b {
                         for (ci, v) in row.iter().enumerate() {
@@ -1098,6 +1149,204 @@ fn run_error_case(s: &mut Stream, i: u64, st: StatusCode, code: u16, msg: &str) 
                 }
             }
 
+// ------------------------------------------------------------------ system stream
+
+/// The real engine in process: DEFINE / STORE / (FLUSH) / QUERY through `dispatch_command` with
+/// each of the three renderers; oracle only (row order and LIMIT choice are scheduling
+/// dependent, so rows are matched by `event_id` and cells compared when no LIMIT is given).
+fn run_sys(a: &snel_harness::out::Args) {
+    use snel_db::command::dispatcher::dispatch_command;
+    use snel_db::command::parser::parse_command;
+    use snel_db::engine::schema::SchemaRegistry;
+    use snel_db::engine::shard::manager::ShardManager;
+    use snel_db::shared::config::CONFIG;
+    use tokio::sync::RwLock;
+
+    let rt = tokio::runtime::Builder::new_multi_thread().worker_threads(4).enable_all().build().unwrap();
+    let mut s = Stream::create(&a.out, "sys");
+    rt.block_on(async {
+        let registry = Arc::new(RwLock::new(SchemaRegistry::new().expect("schema registry")));
+        let sm = Arc::new(
+            ShardManager::new(
+                CONFIG.engine.shard_count,
+                std::path::PathBuf::from(&CONFIG.engine.data_dir),
+                std::path::PathBuf::from(&CONFIG.wal.dir),
+            )
+            .await,
+        );
+        let run = |text: String, rend: &'static dyn Renderer| {
+            let sm = Arc::clone(&sm);
+            let registry = Arc::clone(&registry);
+            async move {
+                let cmd = match parse_command(&text) {
+                    Ok(c) => c,
+                    Err(e) => return Err(format!("parse {text}: {e:?}")),
+                };
+                let mut out: Vec<u8> = Vec::new();
+                dispatch_command(&cmd, &mut out, &sm, &registry, None, Some("bypass"), rend)
+                    .await
+                    .map_err(|e| e.to_string())?;
+                Ok(out)
+            }
+        };
+        static JR: JsonRenderer = JsonRenderer;
+        static UR: UnixRenderer = UnixRenderer;
+        static AR: ArrowRenderer = ArrowRenderer;
+        for i in 0..a.cases {
+            if a.only.is_some_and(|o| o != i) {
+                continue;
+            }
+            let mut r = Rng::for_case(a.seed, "sys", i);
+            let ev = format!("ev{}x{}", a.seed, i);
+            // one payload field of a generated type, plus the key k
+            const FT: &[&str] = &["int", "float", "string", "bool", "u64", "datetime", "date", "string | null", "float | null", "[\"a\",\"b\"]"];
+            let ft = *r.pick(FT);
+            let ft_json = if ft.starts_with('[') { ft.to_string() } else { format!("\"{ft}\"") };
+            let def = format!("DEFINE {ev} FIELDS {{ k: \"int\", f: {ft_json} }}");
+            if let Err(e) = run(def.clone(), &JR).await {
+                s.oracle_fail(i, "-", &format!("define failed: {e}"));
+                continue;
+            }
+            let n = 1 + r.below(6);
+            let mut stored = 0;
+            for k in 0..n {
+                let v: String = match ft {
+                    "int" => r.pick(&["5", "-7", "9223372036854775807", "0"]).to_string(),
+                    "float" | "float | null" => r.pick(&["1.5", "2", "2.0", "-0.0", "1e300", "3", "null"]).to_string(),
+                    "string" | "string | null" => r.pick(&["\"abc\"", "\"5\"", "\"[1,2]\"", "\"18446744073709551615\"", "\"true\"", "\"\"", "\"é\"", "null"]).to_string(),
+                    "bool" => r.pick(&["true", "false"]).to_string(),
+                    "u64" => r.pick(&["5", "18446744073709551615", "9223372036854775808", "0"]).to_string(),
+                    "datetime" => r.pick(&["1700000000", "\"2024-01-02T03:04:05Z\"", "1700000000123"]).to_string(),
+                    "date" => r.pick(&["\"2024-01-02\"", "1700000000"]).to_string(),
+                    _ => r.pick(&["\"a\"", "\"b\""]).to_string(),
+                };
+                let st = format!("STORE {ev} FOR c{} PAYLOAD {{\"k\": {k}, \"f\": {v}}}", r.below(3));
+                if let Ok(out) = run(st, &JR).await {
+                    if out.starts_with(b"{\"count\":1,\"status\":200") || String::from_utf8_lossy(&out).contains("\"status\":200") {
+                        stored += 1;
+                    }
+                }
+            }
+            tokio::time::sleep(std::time::Duration::from_millis(40)).await;
+            let _ = sm.wait_for_flush_completion().await;
+            let flushed = r.chance(1, 2);
+            if flushed {
+                let _ = run("FLUSH".to_string(), &JR).await;
+                tokio::time::sleep(std::time::Duration::from_millis(30)).await;
+                let _ = sm.wait_for_flush_completion().await;
+            }
+            let agg = r.chance(1, 4);
+            let q = if agg {
+                format!("QUERY {ev} {}", r.pick(&["COUNT", "MIN f", "MAX f", "TOTAL f", "AVG f", "COUNT UNIQUE f"]))
+            } else {
+                format!("QUERY {ev}")
+            };
+            let (jb, ub, ab) = (run(q.clone(), &JR).await, run(q.clone(), &UR).await, run(q.clone(), &AR).await);
+            // the stored data must not have moved (auto-flush) while the three queries ran:
+            // ask the JSON renderer again and skip the case when its answer changed
+            let jb2 = run(q.clone(), &JR).await;
+            let canon = |b: &Result<Vec<u8>, String>| -> Option<Vec<String>> {
+                let st = decode_frames(b.as_ref().ok()?).ok()?;
+                let mut v: Vec<String> = st.rows().iter().map(|r| show_row(r)).collect();
+                v.sort();
+                Some(v)
+            };
+            if canon(&jb) != canon(&jb2) {
+                s.tally("unstable_skipped");
+                continue;
+            }
+            let (jb, ub, ab) = match (jb, ub, ab) {
+                (Ok(x), Ok(y), Ok(z)) => (x, y, z),
+                (x, y, z) => {
+                    s.oracle_fail(i, "-", &format!("{q}: dispatch error {:?} {:?} {:?}", x.err(), y.err(), z.err()));
+                    continue;
+                }
+            };
+            s.tally(&format!("field:{ft}"));
+            s.tally(if agg { "query:aggregate" } else { "query:rows" });
+            if flushed { s.tally("flushed"); }
+            let (j, u, ar) = match (decode_frames(&jb), decode_frames(&ub), decode_arrow(&ab)) {
+                (Ok(x), Ok(y), Ok(z)) => (x, y, z),
+                (x, y, z) => {
+                    // an error response (e.g. aggregate over a non-numeric field) is not a table
+                    let all_err = x.is_err() && y.is_err() && z.is_err();
+                    if all_err {
+                        s.tally("error_response");
+                        s.oracle_ok();
+                    } else {
+                        s.oracle_fail(i, "-", &format!("{q}: decodable in some encodings only: {:?} {:?} {:?} json={}", x.err(), y.err(), z.err(), String::from_utf8_lossy(&jb)));
+                    }
+                    continue;
+                }
+            };
+            let names = |c: &Vec<(Vec<u8>, Vec<u8>)>| c.iter().map(|(n, _)| n.clone()).collect::<Vec<_>>();
+            let an: Vec<Vec<u8>> = ar.cols.iter().map(|(n, _)| n.clone()).collect();
+            let mut fails: Vec<(&'static str, String)> = vec![];
+            if names(&j.cols) != names(&u.cols) || names(&j.cols) != an {
+                fails.push(("-", format!("{q}: column names differ")));
+            }
+            let (jr, ur, arr) = (j.rows(), u.rows(), ar.rows());
+            if jr.len() != ur.len() || jr.len() != arr.len() || j.end != Some(jr.len() as i128) || u.end != Some(ur.len() as i128) {
+                fails.push(("-", format!("{q}: rows json {} unix {} arrow {} announced {:?}/{:?}", jr.len(), ur.len(), arr.len(), j.end, u.end)));
+            } else if !agg && jr.len() as u64 != stored {
+                s.tally("rows!=stored");
+            }
+            s.tally_n("rows", jr.len() as u64);
+            // match rows by event_id (or position for aggregates), compare cells
+            let idc = j.cols.iter().position(|(n, _)| n == b"event_id");
+            let key = |row: &Vec<Cell>| idc.map(|c| show_cell(&row[c]));
+            if fails.is_empty() {
+                for (ri, row) in jr.iter().enumerate() {
+                    let find = |rows: &Vec<&Vec<Cell>>| -> Option<Vec<Cell>> {
+                        match key(row) {
+                            Some(k) => rows.iter().find(|x| key(x).as_ref() == Some(&k)).map(|x| (*x).clone()),
+                            None => rows.get(ri).map(|x| (*x).clone()),
+                        }
+                    };
+                    let (Some(urow), Some(arow)) = (find(&ur), find(&arr)) else {
+                        fails.push(("-", format!("{q}: row {ri} missing in another encoding")));
+                        continue;
+                    };
+                    for ci in 0..row.len() {
+                        if !(cell_eq(&row[ci], &urow[ci]) && cell_eq(&row[ci], &arow[ci])) {
+                            let lt = String::from_utf8_lossy(&j.cols[ci].1).to_string();
+                            let b = builder_of(&lt);
+                            // class from the decoded cells: the declared builder vs. what JSON carries
+                            let cl: &'static str = match (&row[ci], b, &arow[ci]) {
+                                (Cell::Json(_), _, _) => "string-reparsed",
+                                (Cell::Int(x), _, _) if *x > i64::MAX as i128 => "string-reparsed",
+                                (Cell::Null, Builder::Float64, Cell::Float(f)) if !f64::from_bits(*f).is_finite() => "nonfinite-float",
+                                (Cell::Int(_), Builder::Int64 | Builder::Ts, _) => "-",
+                                (Cell::Float(_), Builder::Float64, _) => "-",
+                                (Cell::Bool(_), Builder::Bool, _) => "-",
+                                (Cell::Str(_), Builder::Utf8, _) => "-",
+                                (Cell::Null, _, _) => "-",
+                                _ => "arrow-type-mismatch",
+                            };
+                            if !fails.iter().any(|(c, _)| *c == cl) {
+                                fails.push((cl, format!(
+                                    "{def} ; f={ft} flushed={flushed} ; {q} : column {} declared {lt}: json {} unix {} arrow {}",
+                                    String::from_utf8_lossy(&j.cols[ci].0), show_cell(&row[ci]), show_cell(&urow[ci]), show_cell(&arow[ci]))));
+                            }
+                        }
+                    }
+                }
+            }
+            // keep the compared files in step (oracle-only stream: the lines are informative)
+            s.case(&format!("sys {i} {}", hexs(&q)), &format!("rows={}", jr.len()), !jr.is_empty());
+            if fails.is_empty() {
+                s.oracle_ok();
+            } else {
+                for (cl, d) in fails {
+                    s.tally(&format!("oracle:{cl}"));
+                    s.oracle_fail(i, cl, &d);
+                }
+            }
+        }
+    });
+    s.finish();
+}
+
 fn main() {
     let a = parse_args();
     let rowmode = a.extra.iter().any(|x| x == "--rowmode");
@@ -1124,6 +1373,7 @@ fn main() {
     unsafe { std::env::set_var("SNELDB_CONFIG", &cfg_path) };
 
     match a.stream.as_str() {
+        "sys" => run_sys(&a),
         "table" | "table_rows" => {
             let batch_mode = !rowmode;
             assert_eq!(a.stream == "table_rows", rowmode, "table_rows needs --rowmode");
